@@ -16,7 +16,8 @@ use kira::{Frame, PlaybackRate};
 
 pub struct C04;
 
-const RATES: [f64; 7] = [1.0, -1.0, 2.0, 0.5, -0.5, 0.25, 1.5];
+// (the last four: several source frames per output frame, with and without a fractional step)
+const RATES: [f64; 11] = [1.0, -1.0, 2.0, 0.5, -0.5, 0.25, 1.5, 3.7, -4.5, 4.0, -9.25];
 const PAIRS: [(u32, u32); 4] = [(1, 1), (2, 1), (1, 2), (3, 2)]; // (device rate, sound rate)
 const CHUNKS: [usize; 4] = [1, 2, 3, 5];
 const POISON: f32 = 7.0;
@@ -210,8 +211,8 @@ impl C04 {
 		let mut i = idx;
 		let pair = PAIRS[(i % 4) as usize];
 		i /= 4;
-		let rate = RATES[(i % 7) as usize];
-		i /= 7;
+		let rate = RATES[(i % RATES.len() as u64) as usize];
+		i /= RATES.len() as u64;
 		let reverse = i % 2 == 1;
 		i /= 2;
 		let _ = tier;
